@@ -66,6 +66,33 @@ class CtorHooks:
     def truthy(self, v):
         return None
 
+    def table_params(self):
+        """parameters of this constructor that may be given as a table: those tested with isinstance(p, dict)"""
+        if not hasattr(self, "_tp"):
+            owner, fn = self.model.method(self.kind, "__init__")
+            tested = set()
+            for c in ast.walk(fn):
+                if isinstance(c, ast.Call) and isinstance(c.func, ast.Name) and c.func.id == "isinstance" and len(c.args) == 2 and isinstance(c.args[0], ast.Name) \
+                        and "dict" in ast.unparse(c.args[1]):
+                    tested.add(c.args[0].id)
+            params = {a.arg for a in fn.args.posonlyargs + fn.args.args + fn.args.kwonlyargs}
+            # a local that is a plain copy of a parameter (igc = iq) stands for that parameter
+            for s in ast.walk(fn):
+                if isinstance(s, ast.Assign) and len(s.targets) == 1 and isinstance(s.targets[0], ast.Name) and s.targets[0].id in tested and isinstance(s.value, ast.Name):
+                    tested.add(s.value.id)
+            self._tp = tested & params
+        return self._tp
+
+    def truthy_first(self, sm, v):
+        """bare truthiness of a parameter that may be a table: a number is true when non-zero, a dict when non-empty"""
+        if isinstance(v, RF):
+            for p in self.table_params():
+                if v == signed(p):
+                    isd = A(("ISA", vkey(Sym(("name", p))), ("dict",)))
+                    from .guards import f_zero
+                    return Or(And(isd, A(("NONEMPTY", p))), And(Not(isd), Not(f_zero(v, sm.ctx))))
+        return None
+
     def comprehension(self, sm, n, st):
         if isinstance(n, (ast.ListComp, ast.GeneratorExp)) and len(n.generators) == 1 and isinstance(n.generators[0].target, ast.Name) and not n.generators[0].ifs:
             g = n.generators[0]
@@ -80,6 +107,8 @@ class CtorHooks:
     def loop(self, sm, node, st):
         """the table flattening loop is recorded as an idiom instance, its results become opaque flats"""
         info = flatten_idiom(node)
+        if "table" in info:
+            info["root"] = self.root(st.env.get(info["table"]))
         st.events.append(("flatten", info, node.lineno))
         for x in ast.walk(node):
             if isinstance(x, ast.Name) and isinstance(x.ctx, ast.Store):
@@ -157,3 +186,70 @@ def final_params(leaf):
         if e[0] == "store" and e[1][0] == "sub" and e[1][1] == Sym(("PARAMS",)) and isinstance(e[1][2], str):
             out[e[1][2]] = (e[2], e[3])
     return out
+
+
+def value_roots(v):
+    """constructor parameters a value is built from"""
+    out = set()
+    if isinstance(v, RF):
+        for a in v.atoms():
+            if a[0] in ("s", "m", "nn", "fr") and isinstance(a[1], str):
+                out.add(a[1])
+            else:
+                out |= value_roots(a)
+    elif isinstance(v, Sym):
+        out |= value_roots(v.key)
+    elif isinstance(v, (tuple, list)):
+        if len(v) == 2 and v[0] == "name" and isinstance(v[1], str):
+            out.add(v[1])
+        else:
+            for x in v:
+                out |= value_roots(x)
+    elif isinstance(v, ListV):
+        for x in v.items:
+            out |= value_roots(x)
+    return out
+
+
+def stored_is_used_rule(model, rep, rule):
+    """what a constructor hands to its interpolator is what it stores in _params (the row params()/save() report and
+    from_file() feeds back into the constructor): on every accepting path the parameter the interpolator is built from is
+    the root of a stored entry"""
+    rel = model.rel("components")
+    n = 0
+    for kind in KINDS:
+        owner, fn, leaves = ctor_paths(model, kind)
+        params = {a.arg for a in fn.args.posonlyargs + fn.args.args + fn.args.kwonlyargs} - {"self", "name", "limits"}
+        ok = True
+        npaths = 0
+        for lf in leaves:
+            if lf.kind == "raise":
+                continue
+            stored = {}
+            for k, (v, line) in final_params(lf).items():
+                for r in value_roots(v) & params:
+                    stored.setdefault(r, k)
+            flat_root = None
+            for e in lf.events:
+                used = set()
+                if e[0] == "flatten":
+                    flat_root = value_roots(e[1].get("root")) & params if e[1].get("root") is not None else set()
+                    continue
+                if e[0] != "interp":
+                    continue
+                npaths += 1
+                for a in e[2]:
+                    if isinstance(a, Sym) and a.key[0] == "flat":
+                        used |= flat_root or set()
+                    else:
+                        used |= value_roots(a) & params
+                if not used:
+                    raise AnalysisError("%s.__init__: the interpolator at line %d is built from no recognisable parameter" % (kind, e[3]))
+                for p in sorted(used - set(stored)):
+                    ok = False
+                    rep.violation(rule, "components.%s.__init__" % kind, "%s:%d" % (rel, e[3]),
+                                  "the interpolator is built from parameter '%s' but no _params entry stores it on this path (stored: %s): params(), save() and a reloaded system see another value than the one the component computes with" % (
+                                      p, ", ".join("%s<-%s" % (k, r) for r, k in sorted(stored.items()))), "interpolator parameter %s not stored" % p)
+        rep.instance(rule, "components.%s.__init__ stores what its interpolator uses" % kind, "%s:%d" % (rel, fn.lineno), ok, "%d interpolator sites on accepting paths" % npaths)
+        n += 1
+    rep.floor(rule, n, 11)
